@@ -86,9 +86,16 @@ fn pend_tok(b: bool) -> &'static str {
     if b { "p1" } else { "p0" }
 }
 
+/// `n` bytes `k, k+1, …` modulo 251: the large chunks of the bulk cases (written `z:<n>:<k>`, so that
+/// case texts and replay files stay small; `drv_bridge` expands the token in the same way).
+fn pattern(n: usize, k: u8) -> Vec<u8> {
+    (0..n).map(|i| ((usize::from(k) + i) % 251) as u8).collect()
+}
+
 fn fill_tok(a: &Ans<Vec<u8>>) -> String {
     match a {
         Ans::Ready(d) if d.is_empty() => "eof".into(),
+        Ans::Ready(d) if d.len() >= 64 && d[0] < 251 && *d == pattern(d.len(), d[0]) => format!("z:{}:{}", d.len(), d[0]),
         Ans::Ready(d) => format!("d:{}", hex(d)),
         Ans::Pending(b) => pend_tok(*b).into(),
         Ans::Err(c) => format!("e:{c}"),
@@ -137,6 +144,11 @@ fn parse_fill(t: &str) -> Option<Ans<Vec<u8>>> {
     }
     if t == "eof" {
         return Some(Ans::Ready(vec![]));
+    }
+    if let Some(z) = t.strip_prefix("z:") {
+        let (n, k) = z.split_once(':')?;
+        let (n, k): (usize, u8) = (n.parse().ok()?, k.parse().ok()?);
+        return (n >= 1 && n <= 1 << 22 && k < 251).then(|| Ans::Ready(pattern(n, k)));
     }
     unhex(t.strip_prefix("d:")?).map(Ans::Ready)
 }
@@ -248,6 +260,8 @@ enum LCall {
 impl LCall {
     fn tok(&self) -> String {
         match self {
+            // (the call log is compared with the model's: always plain hex)
+            LCall::Fill(Ans::Ready(d)) if !d.is_empty() => format!("F:d:{}", hex(d)),
             LCall::Fill(a) => format!("F:{}", fill_tok(a)),
             LCall::Consume(n) => format!("C:{n}"),
             LCall::Write(len, a) => format!("W:{len}:{}", write_tok(a)),
@@ -513,6 +527,8 @@ struct World {
     polls: u32,
     moved: bool,
     dead_peer: bool,
+    /// size of the peer application's reads in the completion phase
+    final_read: usize,
 }
 
 const OP_ACK: u8 = 1;
@@ -526,6 +542,35 @@ fn parse_frame(hexs: &str) -> Option<(u8, u32, Vec<u8>)> {
         return None;
     }
     Some((b[0] & 0x0f, u32::from_be_bytes([b[1], b[2], b[3], b[4]]), b[5..].to_vec()))
+}
+
+/// Long hex runs of a trace line shortened (the trace is for the reader; the compared lines stay whole).
+fn abbr(line: &str) -> String {
+    if line.len() <= 600 {
+        return line.to_string();
+    }
+    let mut out = String::with_capacity(600);
+    let mut run = String::new();
+    let flush = |run: &mut String, out: &mut String| {
+        if run.len() > 96 {
+            out.push_str(&run[..32]);
+            out.push_str(&format!("..({} bytes)..", run.len() / 2));
+            out.push_str(&run[run.len() - 32..]);
+        } else {
+            out.push_str(run);
+        }
+        run.clear();
+    };
+    for c in line.chars() {
+        if c.is_ascii_hexdigit() {
+            run.push(c);
+        } else {
+            flush(&mut run, &mut out);
+            out.push(c);
+        }
+    }
+    flush(&mut run, &mut out);
+    out
 }
 
 /// The `wire <hex>` events of a `Sim` answer / settle.
@@ -629,12 +674,14 @@ impl World {
             polls: 0,
             moved: false,
             dead_peer: false,
+            // bulk cases: the peer application reads whole frames, so that 64 reads drain everything
+            final_read: if case.lfill.iter().any(|a| matches!(a, Ans::Ready(d) if d.len() > 1024)) { 1 << 18 } else { 4096 },
         }
     }
 
     fn fail(&mut self, key: &str, desc: String) {
         if !self.fails.iter().any(|f| f.0 == key) {
-            self.fails.push((key.to_string(), desc));
+            self.fails.push((key.to_string(), abbr(&desc)));
         }
     }
 
@@ -660,7 +707,7 @@ impl World {
         match op {
             OP_PUSH if !self.rx_end => {
                 self.reqs.push(format!("ev push {}", hexd(&payload)));
-                self.trace.push(format!("  -> stream: Push {}", hexd(&payload)));
+                self.trace.push(abbr(&format!("  -> stream: Push {}", hexd(&payload))));
                 self.delivered.extend_from_slice(&payload);
                 wake_r = true;
             }
@@ -751,7 +798,7 @@ impl World {
 
     fn peer(&mut self, toks: &[&str]) -> String {
         let (res, evs) = split_answer(&self.p.apply(toks));
-        self.trace.push(format!("peer {} => {res}", toks.join(" ")));
+        self.trace.push(abbr(&format!("peer {} => {res}", toks.join(" "))));
         self.pump(wires_of(&evs), vec![]);
         res
     }
@@ -840,7 +887,7 @@ impl World {
         );
         self.reqs.push("poll".into());
         self.lines.push(line.clone());
-        self.trace.push(format!("poll #{} => {line}", self.polls));
+        self.trace.push(abbr(&format!("poll #{} => {line}", self.polls)));
         if accepted.len() > acc0 || consumed.len() > cons0 {
             self.moved = true;
         }
@@ -1115,7 +1162,7 @@ impl World {
             if self.finished.is_some() || !self.p_alive || self.aborted {
                 break;
             }
-            let r = self.peer(&["read", "0", "4096"]);
+            let r = self.peer(&["read", "0", &self.final_read.to_string()]);
             self.poll_while_woken();
             if !r.starts_with("data") {
                 break;
@@ -1398,6 +1445,8 @@ const DEEP_WRITE_EVS: usize = 4;
 /// The case list of a run, generated on demand (index → case) so that workers share nothing.
 struct Plan {
     corpus: Vec<(String, Case)>,
+    /// bulk family: a lot of data readable at once on the local side (chunk sizes, what follows them)
+    bulk: Vec<(Vec<usize>, u8)>,
     /// bounded-exhaustive: locals × evs × credit {1, 2}
     locals: Vec<LocalScripts>,
     evs: Vec<Vec<MuxEv>>,
@@ -1411,11 +1460,31 @@ struct Plan {
 }
 
 impl Plan {
-    fn new(corpus: Vec<(String, Case)>, kl: usize, km: usize, kd: usize, n_short: usize, n_long: usize, seed: u64) -> Self {
+    fn new(corpus: Vec<(String, Case)>, kl: usize, km: usize, kd: usize, n_short: usize, n_long: usize, seed: u64, bulk_all: bool) -> Self {
+        // One poll finds all of this readable: the coalescing loop takes chunk after chunk for ONE unit of
+        // credit, so whatever the sizes exactly one Push may leave (64 KiB = 65536 and the 5-byte frame
+        // header are the boundaries a size limit on the message would sit at).
+        let mut bulk: Vec<(Vec<usize>, u8)> = vec![];
+        if bulk_all {
+            for s in seqs(&[1usize, 30_000, 65_531, 70_000], 3).into_iter().filter(|s| s.len() >= 2) {
+                for tail in 0..3 {
+                    bulk.push((s.clone(), tail));
+                }
+            }
+            bulk.push((vec![200_000, 5], 0));
+            bulk.push((vec![100_000, 100_000], 1));
+        } else {
+            let scripts: [&[usize]; 8] = [&[70_000, 1], &[40_000, 40_000], &[200_000, 5], &[65_531, 1], &[65_532, 65_532], &[30_000, 30_000, 30_000], &[70_000, 70_000, 70_000], &[1, 70_000, 1]];
+            for (i, s) in scripts.iter().enumerate() {
+                bulk.push((s.to_vec(), (i % 3) as u8));
+                bulk.push((s.to_vec(), ((i + 1) % 3) as u8));
+            }
+        }
         let ev_alpha = [MuxEv::Write1, MuxEv::Write2, MuxEv::Fin, MuxEv::Rst, MuxEv::Read, MuxEv::Abort];
         let deep_ev_alpha = [MuxEv::Write2, MuxEv::Fin, MuxEv::Rst, MuxEv::Read];
         Self {
             corpus,
+            bulk,
             locals: local_combinations(kl),
             evs: seqs(&ev_alpha, km),
             deep_fills: seqs(&fill_alpha(), kd),
@@ -1432,8 +1501,11 @@ impl Plan {
     fn n_deep(&self) -> usize {
         self.deep_fills.len() * DEEP_FILL_EVS * 3 + self.deep_writes.len() * DEEP_WRITE_EVS * 3 + self.deep_evs.len()
     }
+    fn n_bulk(&self) -> usize {
+        self.bulk.len() * 2
+    }
     fn len(&self) -> usize {
-        self.corpus.len() + self.n_exhaustive() + self.n_deep() + self.n_short + self.n_long
+        self.corpus.len() + self.n_bulk() + self.n_exhaustive() + self.n_deep() + self.n_short + self.n_long
     }
     fn get(&self, mut i: usize) -> (String, Case) {
         if i < self.corpus.len() {
@@ -1441,6 +1513,20 @@ impl Plan {
         }
         i -= self.corpus.len();
         let base = |credit: u32, rwnd_b: u32| Case { credit, rwnd_b, thr_p: 1, thr_b: 1, lfill: vec![], lwrite: vec![], lwrite_rep: false, lflush: vec![], lshut: vec![], steps: vec![] };
+        if i < self.n_bulk() {
+            // credit 1 and 2; after the chunks: end-of-file / Pending with a later wake-up / a read error
+            let (sizes, tail) = &self.bulk[i / 2];
+            let mut c = base(1 + (i % 2) as u32, 2);
+            c.lfill = sizes.iter().enumerate().map(|(k, n)| Ans::Ready(pattern(*n, ((k * 83 + 7) % 251) as u8))).collect();
+            match tail {
+                1 => c.lfill.push(Ans::Pending(true)),
+                2 => c.lfill.push(Ans::Err(7)),
+                _ => {}
+            }
+            c.steps = schedule(&[MuxEv::Read, MuxEv::Read]);
+            return ("bulk".into(), c);
+        }
+        i -= self.n_bulk();
         if i < self.n_exhaustive() {
             let credit = 1 + (i % 2) as u32;
             let e = &self.evs[(i / 2) % self.evs.len()];
@@ -1558,7 +1644,7 @@ fn diff_answers(o: &Outcome, answers: &[String]) -> Option<(usize, String, Strin
 }
 
 /// Run a group of cases, ask the model about all of them in one batch, judge each.
-fn evaluate_group(group: &[(String, Case)], mode: &str, part: &mut Part, drv: &mut Option<Driver>) {
+fn evaluate_group(group: &[(String, Case)], mode: &str, part: &mut Part, drv: &mut Option<Driver>, credit_only: bool) {
     let outs: Vec<Outcome> = group.iter().map(|(_, c)| run_caught(c, mode)).collect();
     let answers: Option<Vec<String>> = drv.as_mut().map(|d| {
         let all: Vec<String> = outs.iter().flat_map(|o| o.reqs.iter().cloned()).collect();
@@ -1571,14 +1657,18 @@ fn evaluate_group(group: &[(String, Case)], mode: &str, part: &mut Part, drv: &m
             at += o.reqs.len();
             diff_answers(&o, sl)
         });
-        evaluate(case, origin, mode, part, drv, o, pre);
+        evaluate(case, origin, mode, part, drv, o, pre, credit_only);
         if part.failures.len() >= 8 {
             break;
         }
     }
 }
 
-fn evaluate(case: &Case, origin: &str, mode: &str, part: &mut Part, drv: &mut Option<Driver>, o: Outcome, pre: Option<Option<(usize, String, String)>>) {
+/// The monitors that speak about credit (C03's share of the bridge).
+const CREDIT_KEYS: [&str; 2] = ["credit-overrun", "credit-per-frame"];
+
+#[allow(clippy::too_many_arguments)]
+fn evaluate(case: &Case, origin: &str, mode: &str, part: &mut Part, drv: &mut Option<Driver>, o: Outcome, pre: Option<Option<(usize, String, String)>>, credit_only: bool) {
     let text = case.to_text();
     part.evaluations += 1;
     // non-trivial: at least one byte was relayed, or a direction was closed / failed beyond the first fill
@@ -1606,7 +1696,7 @@ fn evaluate(case: &Case, origin: &str, mode: &str, part: &mut Part, drv: &mut Op
     if part.samples.len() < 4 && o.moved && o.polls >= 3 {
         part.samples.push(json!({"case": text, "trace": o.trace.iter().take(30).collect::<Vec<_>>()}));
     }
-    for (key, _) in &o.fails {
+    for (key, _) in o.fails.iter().filter(|f| !credit_only || CREDIT_KEYS.contains(&f.0.as_str())) {
         let small = shrink_case(case, |c| run_caught(c, mode).fails.iter().any(|f| &f.0 == key));
         let o2 = run_caught(&small, mode);
         let desc = o2.fails.iter().find(|f| &f.0 == key).map_or_else(|| key.clone(), |f| f.1.clone());
@@ -1634,7 +1724,7 @@ fn evaluate(case: &Case, origin: &str, mode: &str, part: &mut Part, drv: &mut Op
     }
 }
 
-fn replay(path: &str, mode: &str) -> i32 {
+fn replay(path: &str, mode: &str, credit_only: bool) -> i32 {
     let text = std::fs::read_to_string(path).expect("read replay file");
     let case_text = if path.ends_with(".json") {
         let v: pvh::Value = serde_json::from_str(&text).expect("replay json");
@@ -1652,21 +1742,30 @@ fn replay(path: &str, mode: &str) -> i32 {
     for l in &o.trace {
         println!("{l}");
     }
-    for (k, d) in &o.fails {
+    let fails: Vec<&(String, String)> = o.fails.iter().filter(|f| !credit_only || CREDIT_KEYS.contains(&f.0.as_str())).collect();
+    for (k, d) in &fails {
         println!("FAILS {k}: {d}");
     }
-    if o.fails.is_empty() {
+    if fails.is_empty() {
         println!("the property's monitors hold on this replay");
     }
-    i32::from(!o.fails.is_empty())
+    i32::from(!fails.is_empty())
 }
 
 fn main() {
     pvh::quiet_panics();
     let args = Args::parse();
     let mode = if args.flag("--pinned") { "pinned" } else { "fixed" };
+    // `--focus C03`: the run that C03's check makes (copy_bidirectional.rs is one of the places where credit
+    // is taken and Push frames are sent): the bulk family, the small enumerated families and random cases;
+    // only the credit monitors are reported (everything else about the bridge is C13's).
+    let credit_only = match args.opt("--focus") {
+        None | Some("C13") => false,
+        Some("C03") => true,
+        Some(other) => panic!("unknown focus {other}"),
+    };
     if let Some(p) = &args.replay {
-        std::process::exit(replay(p, mode));
+        std::process::exit(replay(p, mode, credit_only));
     }
     let rule = "one case = local scripts (answers to poll_fill_buf / poll_write / poll_flush / poll_shutdown) x a step list \
 (bridge polls, local wake-ups, peer writes / reads / Finish / Reset, connection abort) run on the real CopyBidirectional over a real \
@@ -1678,19 +1777,24 @@ non-trivial = at least one byte was relayed or the bridge was polled at least tw
     for (name, text) in pvh::corpus_files(args.corpus.as_deref()) {
         match Case::parse(&text) {
             Some(c) => corpus.push((format!("corpus:{name}"), c)),
+            // (C03's corpus directory belongs to the mux harness)
+            None if credit_only => {}
             None => rep.fail(FailKind::Model, &format!("corpus:{name}"), "corpus file does not parse", json!({"file": name})),
         }
     }
-    let (kl, km, kd, n_short, n_long) = match args.tier {
-        Tier::Quick => (2, 1, 3, 1500, 500),
-        Tier::Thorough => (4, 3, 6, 300_000, 100_000),
+    let (kl, km, kd, n_short, n_long) = match (args.tier, credit_only) {
+        (Tier::Quick, false) => (2, 1, 3, 1500, 500),
+        (Tier::Thorough, false) => (4, 3, 6, 300_000, 100_000),
+        (Tier::Quick, true) => (1, 1, 2, 600, 200),
+        (Tier::Thorough, true) => (2, 2, 4, 30_000, 10_000),
     };
     let (kl, km, kd) = (
         args.opt("--kl").and_then(|s| s.parse().ok()).unwrap_or(kl),
         args.opt("--km").and_then(|s| s.parse().ok()).unwrap_or(km),
         args.opt("--kd").and_then(|s| s.parse().ok()).unwrap_or(kd),
     );
-    let plan = Plan::new(corpus, kl, km, kd, n_short, n_long, args.seed);
+    let plan = Plan::new(corpus, kl, km, kd, n_short, n_long, args.seed, args.tier == Tier::Thorough);
+    let n_bulk = plan.n_bulk();
     let n_enum = plan.n_exhaustive() + plan.n_deep();
     let total = plan.len();
     let threads = std::thread::available_parallelism().map_or(4, std::num::NonZero::get).min(16).min(total.max(1));
@@ -1708,7 +1812,7 @@ non-trivial = at least one byte was relayed or the bridge was polled at least tw
                     let mut b = t;
                     while b < n_blocks {
                         let group: Vec<(String, Case)> = (b * BLOCK..((b + 1) * BLOCK).min(total)).map(|i| plan.get(i)).collect();
-                        evaluate_group(&group, mode, &mut part, &mut drv);
+                        evaluate_group(&group, mode, &mut part, &mut drv, credit_only);
                         if part.failures.len() >= 8 {
                             break;
                         }
@@ -1735,6 +1839,7 @@ non-trivial = at least one byte was relayed or the bridge was polled at least tw
         }
     }
     rep.exhaustive = false;
+    rep.notes.push(format!("{n_bulk} bulk cases (two or three chunks of up to 200000 bytes readable at once on the local side, credit 1 and 2)"));
     rep.notes.push(format!(
         "{n_enum} enumerated cases: every combination of local scripts with at most {kl} answers in total over alphabets of 6/6/4/4 answers x every \
 mux-side event list of length <= {km} over 6 events x credit 1,2 (canonical schedule), plus single-script families up to {kd} answers; \
